@@ -111,8 +111,8 @@ Print Assumptions C05_13_every_delivery_sealed.
 
 (* Over every history: every record the endpoint acted on in a protected epoch (it commits the replay slot exactly
    when it delivers data, acts on an alert, hands a handshake / KeyUpdate / ACK record to the handshake layer or
-   handles a return-routability message) is a tuple the peer sealed.  Only epoch 0 is exempt (see the refuted
-   statements below). *)
+   handles a return-routability message) is a tuple the peer sealed.  Epoch 0 is exempt here (any state); for an established connection see
+   C05_13_established_effects_sealed, which covers epoch 0 too. *)
 Theorem C05_13_every_commit_sealed :
   forall (snmask : N -> bytes -> N) (aopen : N -> N -> bytes -> bytes -> option bytes)
     (hs_room : bytes -> bool) (log : list (N * N * bytes * bytes * bytes)),
@@ -215,31 +215,94 @@ Theorem C05_13_candidate_order_irrelevant :
 Proof. exact open_cands_perm. Qed.
 Print Assumptions C05_13_candidate_order_irrelevant.
 
-(* WHAT THE CODE STILL DOES WITH UNPROTECTED RECORDS (known finding F42): on an established connection the
-   15-byte datagram 15 fefd 0000 00000000102a 0002 0250 (alert, epoch 0, fatal) closes the connection, whatever
-   the keys are. *)
-Theorem C05_13_unprotected_alert_closes :
+(* UNPROTECTED RECORDS.  Once the handshake is complete a legacy-header record (alert, handshake or ACK typed - nothing
+   else gets past UnpackDatagram13) has no output, commits no replay slot, changes no highest number, generation,
+   epoch or closed flag.  All it can still do: make the code allocate (empty) replay detectors and, when it claims
+   the next epoch, take one slot of the bounded queue.  (Repaired defects: an unprotected fatal alert used to close the
+   connection, an unprotected ACK to commit a KeyUpdate, an unprotected KeyUpdate to provoke a fatal alert.) *)
+Theorem C05_13_legacy_inert_established :
+  (N -> bytes -> N) ->
+  (N -> N -> bytes -> bytes -> option bytes) ->
+  forall (hs_room : bytes -> bool) (W : nat) (lease : bool) (s : rstate) (b : list N),
+  r_estab s = true ->
+  is_plain13 (hd 0 b) = true ->
+  snd (recv_legacy hs_room W lease s b) = [] /\
+  keys_same s (fst (recv_legacy hs_room W lease s b)) /\
+  r_high (fst (recv_legacy hs_room W lease s b)) = r_high s /\
+  r_closed (fst (recv_legacy hs_room W lease s b)) = r_closed s /\
+  (forall e : N,
+   snd (get_win W e (r_wins (fst (recv_legacy hs_room W lease s b)))) =
+   snd (get_win W e (r_wins s))) /\
+  (r_queue (fst (recv_legacy hs_room W lease s b)) = r_queue s \/
+   r_queue (fst (recv_legacy hs_room W lease s b)) = r_queue s ++ [b]).
+Proof. exact legacy_inert_established. Qed.
+Print Assumptions C05_13_legacy_inert_established.
+
+(* Over every history after establishment (from a state whose queue holds only records UnpackDatagram13 let through):
+   every visible output comes out of the ciphertext path, i.e. from a record that authenticated (C05_13_forged_inert). *)
+Theorem C05_13_established_outputs_from_ciphertext :
+  forall (snmask : N -> bytes -> N) (aopen : N -> N -> bytes -> bytes -> option bytes)
+    (hs_room : bytes -> bool) (W : nat) (o : out) (ops : list op) 
+    (s : rstate),
+  r_estab s = true ->
+  QI s ->
+  In o (snd (run_ops snmask aopen hs_room W s ops)) ->
+  exists (lease : bool) (s' : rstate) (b : bytes),
+    r_estab s' = true /\ In o (snd (recv_cipher snmask aopen hs_room W lease s' b)).
+Proof. exact established_outputs_from_ciphertext. Qed.
+Print Assumptions C05_13_established_outputs_from_ciphertext.
+
+(* That queue invariant holds in every state reachable from the initial one. *)
+Theorem C05_13_queue_typed_reachable :
+  forall (snmask : N -> bytes -> N) (aopen : N -> N -> bytes -> bytes -> option bytes)
+    (hs_room : bytes -> bool) (W : nat) (ops : list op) (s : rstate),
+  QI s -> QI (fst (run_ops snmask aopen hs_room W s ops)).
+Proof. exact queue_typed_reachable. Qed.
+Print Assumptions C05_13_queue_typed_reachable.
+
+(* PREMISE ideal (INT-CTXT).  An established connection acts only on records the peer sealed, EPOCH 0 INCLUDED: every
+   output - delivery, alert acted on, alert written, handshake / ACK record handed on, close, Read error - and every
+   committed replay slot traces back to a sealed tuple.  Exempt remain only: the time before establishment (the
+   handshake is made of unprotected records; an unprotected alert aborts it), detector allocation and the bounded queue. *)
+Theorem C05_13_established_effects_sealed :
+  forall (snmask : N -> bytes -> N) (aopen : N -> N -> bytes -> bytes -> option bytes)
+    (hs_room : bytes -> bool) (log : list (N * N * bytes * bytes * bytes)),
+  (forall (e q : N) (a c i : bytes), aopen e q a c = Some i -> In (e, q, a, c, i) log) ->
+  forall (W : nat) (ops : list op) (s : rstate) (o : out),
+  r_estab s = true ->
+  QI s ->
+  In o (snd (run_ops snmask aopen hs_room W s ops)) ->
+  match o with
+  | OMark e q => exists a c i : bytes, In (e, q, a, c, i) log
+  | OAlertOut _ _ | OClosed | OErr => exists (e q : N) (a c i : bytes), In (e, q, a, c, i) log
+  | _ => exists (e0 q0 : N) (a c i : bytes), In (e0, q0, a, c, i) log
+  end.
+Proof. exact established_effects_sealed. Qed.
+Print Assumptions C05_13_established_effects_sealed.
+
+(* Regression item: 15 fefd 0000 00000000102a 0002 0250 (alert, epoch 0, fatal) on an established connection: no output,
+   not closed, no commit. *)
+Theorem C05_13_unprotected_alert_inert_example :
   has_prot est_state = true /\
   r_closed est_state = false /\
   (forall (snmask : N -> bytes -> N) (aopen : N -> N -> bytes -> bytes -> option bytes)
      (hs_room : bytes -> bool),
-   snd (recv13 snmask aopen hs_room 64 est_state plain_alert) =
-   [OMark 0 4138; OAlertIn 0 4138 2 80; OClosed] /\
-   r_closed (fst (recv13 snmask aopen hs_room 64 est_state plain_alert)) = true).
-Proof. exact unprotected_alert_closes. Qed.
-Print Assumptions C05_13_unprotected_alert_closes.
+   snd (recv13 snmask aopen hs_room 64 est_state plain_alert) = [] /\
+   r_closed (fst (recv13 snmask aopen hs_room 64 est_state plain_alert)) = false /\
+   latest
+     (snd (get_win 64 0 (r_wins (fst (recv13 snmask aopen hs_room 64 est_state plain_alert))))) =
+   0).
+Proof. exact unprotected_alert_inert_example. Qed.
+Print Assumptions C05_13_unprotected_alert_inert_example.
 
-(* Hence the ideal statement "once keys exist the endpoint acts only on records the peer sealed" is REFUTED for the
-   model of the code as it is: with an AEAD that opens nothing a datagram still closes the connection. *)
-Theorem C05_13_acts_only_on_sealed_refuted :
-  ~
-  (forall (snmask : N -> bytes -> N) (aopen : N -> N -> bytes -> bytes -> option bytes)
-     (hs_room : bytes -> bool) (W : nat) (s : rstate) (d : bytes),
-   (forall (e q : N) (a c : bytes), aopen e q a c = None) ->
-   has_prot s = true ->
-   r_closed s = false -> r_closed (fst (recv13 snmask aopen hs_room W s d)) = false).
-Proof. exact acts_only_on_sealed_refuted. Qed.
-Print Assumptions C05_13_acts_only_on_sealed_refuted.
+(* ... while before establishment the same datagram aborts the handshake (as coded, and as in DTLS 1.2). *)
+Theorem C05_13_unprotected_alert_during_handshake :
+  forall (snmask : N -> bytes -> N) (aopen : N -> N -> bytes -> bytes -> option bytes)
+    (hs_room : bytes -> bool),
+  snd (recv13 snmask aopen hs_room 64 (rinit [] false false) plain_alert) =
+  [OMark 0 4138; OAlertIn 0 4138 2 80; OClosed].
+Proof. exact unprotected_alert_during_handshake. Qed.
+Print Assumptions C05_13_unprotected_alert_during_handshake.
 
 (* Once the handshake is complete only authentic handshake records of a protected epoch (KeyUpdate, NewSessionTicket,
    retransmitted final flights) reach the handshake layer; unprotected ones are discarded before reassembly (the
